@@ -1,16 +1,18 @@
 (* AigerSafe.v — safety, failing-source behaviour, error locations and limits of the AIGER parsers
    (ascii and binary), for every admissible run.  Hoare.v is the framework, CnfSafe.v the template.
 
-   The line bookkeeping invariant (KM) is stated against a stream M that may differ from the stream S the
-   parser reads: M agrees with S from the cursor on.  For the ascii parser M = S.  The binary parser
-   does not count the LF bytes of the binary and-gate section as line breaks (known finding K1): there
-   M is S with the LF bytes of that section masked (mask S ba bb).
+   The line bookkeeping invariant (KM M lr v) says: the stream being read is M, the line start of lr is 0 or just
+   behind an LF of M and not behind the cursor, no LF lies between it and the cursor, and the line number is one more
+   than the LF bytes of M before the line start.  It is the same for both parsers: since flussab 530b52f the binary
+   parser counts a byte 10 that ends a delta code of the and-gate section as a line break (before that fix those
+   bytes were skipped: the former known finding K1, now defect D15), so every LF of the input is a line break for
+   both, and T3 has the same form for both.
 
-   Sections: 0 what the digit scanner has buffered; 1 masking, list facts, what the limits say (T4 vocabulary);
-   2 the invariant and the tokens, header, sections, symbols, comment, parse_aag (Section WithM);
-   3 the binary and-gate section and parse_aig (Section WithS); 4 the theorems
-   parse_{aag,aig}_{safe,failing,error_location,limits_fc,any_chunking}, parse_aag_error_position,
-   parse_aig_error_location_masked / _line_count, the triples.  AigerLimits.v restates T4 without from_code. *)
+   Sections: 0 what the digit scanner has buffered; 1 list facts, what the limits say (T4 vocabulary);
+   2 the invariant and the tokens (binary_uint / delta_code included), header, sections, symbols, comment,
+   parse_aag, parse_aig (Section WithM); 3 the theorems
+   parse_{aag,aig}_{safe,failing,error_location,error_position,limits_fc,any_chunking}, the triples.
+   AigerLimits.v restates T4 without from_code. *)
 From Flussab Require Import Base Reader ListN Writer Parsed Prog Text TextSpec ProgProofs ScanProofs DigitsProofs.
 From Flussab Require Import ReaderProofs Simulation Consts Cnf CnfProofs ErrProofs Varint Aiger AigerProofs Hoare CnfSafe.
 Ltac Zify.zify_post_hook ::= Z.to_euclidean_division_equations.
@@ -47,117 +49,7 @@ Proof.
 Qed.
 
 (* ================================================================== *)
-(* 1. masking the LF bytes of a range                                    *)
-
-Fixpoint maskn (l : bytes) (i ba bb : N) : bytes :=
-  match l with
-  | [] => []
-  | b :: r => (if (ba <=? i) && (i <? bb) && (b =? 10) then 0 else b) :: maskn r (i + 1) ba bb
-  end.
-Definition mask (S : bytes) (ba bb : N) : bytes := maskn S 0 ba bb.
-
-Definition mask_byte (ba bb i b : N) : N := if (ba <=? i) && (i <? bb) && (b =? 10) then 0 else b.
-
-Lemma maskn_length l : forall i ba bb, length (maskn l i ba bb) = length l.
-Proof. induction l as [|b r IH]; intros i ba bb; cbn [maskn length]; [reflexivity|]. rewrite IH. reflexivity. Qed.
-
-Lemma nlen_mask S ba bb : nlen (mask S ba bb) = nlen S.
-Proof. unfold nlen, mask. rewrite maskn_length. reflexivity. Qed.
-
-Lemma maskn_nth l : forall i ba bb k,
-  nth_error (maskn l i ba bb) k = option_map (mask_byte ba bb (i + N.of_nat k)) (nth_error l k).
-Proof.
-  induction l as [|b r IH]; intros i ba bb k; cbn [maskn].
-  - destruct k; reflexivity.
-  - destruct k as [|k]; cbn [nth_error option_map].
-    + unfold mask_byte. replace (i + N.of_nat 0) with i by lia. reflexivity.
-    + rewrite IH. replace (i + 1 + N.of_nat k) with (i + N.of_nat (S k)) by lia. reflexivity.
-Qed.
-
-Lemma nnth_mask S ba bb i : nnth (mask S ba bb) i = option_map (mask_byte ba bb i) (nnth S i).
-Proof. unfold nnth, mask. rewrite maskn_nth. replace (0 + N.of_nat (N.to_nat i)) with i by lia. reflexivity. Qed.
-
-Lemma nnth_mask_out S ba bb i : (i < ba \/ bb <= i) -> nnth (mask S ba bb) i = nnth S i.
-Proof.
-  intros H. rewrite nnth_mask. destruct (nnth S i) as [b|]; [|reflexivity]. cbn [option_map]. unfold mask_byte.
-  destruct (ba <=? i) eqn:E1; [|reflexivity]. destruct (i <? bb) eqn:E2; [|reflexivity].
-  apply N.leb_le in E1. apply N.ltb_lt in E2. lia.
-Qed.
-
-Lemma nnth_mask_in S ba bb i : ba <= i -> i < bb -> nnth (mask S ba bb) i <> Some 10.
-Proof.
-  intros H1 H2. rewrite nnth_mask. destruct (nnth S i) as [b|]; [|discriminate]. cbn [option_map]. unfold mask_byte.
-  assert ((ba <=? i) = true) as -> by (apply N.leb_le; exact H1).
-  assert ((i <? bb) = true) as -> by (apply N.ltb_lt; exact H2). cbn [andb].
-  destruct (b =? 10) eqn:E; [discriminate|]. apply N.eqb_neq in E. congruence.
-Qed.
-
-Lemma nth_error_ext {A} (l1 l2 : list A) : (forall k, nth_error l1 k = nth_error l2 k) -> l1 = l2.
-Proof.
-  revert l2. induction l1 as [|a l1 IH]; intros l2 H.
-  - destruct l2 as [|b l2]; [reflexivity|]. specialize (H 0%nat). discriminate.
-  - destruct l2 as [|b l2]; [specialize (H 0%nat); discriminate|].
-    pose proof (H 0%nat) as H0. cbn in H0. inversion H0; subst. f_equal. apply IH. intros k. exact (H (S k)).
-Qed.
-
-Lemma nnth_ext {A} (l1 l2 : list A) : (forall i, nnth l1 i = nnth l2 i) -> l1 = l2.
-Proof. intros H. apply nth_error_ext. intros k. specialize (H (N.of_nat k)). unfold nnth in H. rewrite Nat2N.id in H. exact H. Qed.
-
-Lemma nnth_nfirstn {A} (l : list A) n i : nnth (nfirstn n l) i = if i <? n then nnth l i else None.
-Proof.
-  unfold nnth, nfirstn. destruct (i <? n) eqn:E.
-  - apply N.ltb_lt in E. apply nth_error_firstn. lia.
-  - apply N.ltb_ge in E. apply nth_error_None. rewrite firstn_length. lia.
-Qed.
-
-(* prefixes before the cursor do not depend on how far the masked range extends *)
-Lemma nfirstn_mask S ba b1 b2 k : k <= b1 -> k <= b2 -> nfirstn k (mask S ba b1) = nfirstn k (mask S ba b2).
-Proof.
-  intros H1 H2. apply nnth_ext. intros i. rewrite !nnth_nfirstn. destruct (i <? k) eqn:E; [|reflexivity].
-  apply N.ltb_lt in E. rewrite !nnth_mask. destruct (nnth S i) as [b|]; [|reflexivity]. cbn [option_map]. unfold mask_byte.
-  assert ((i <? b1) = true) as -> by (apply N.ltb_lt; lia).
-  assert ((i <? b2) = true) as -> by (apply N.ltb_lt; lia). reflexivity.
-Qed.
-
-Lemma mask_nolf_id S ba bb : nolf S ba bb -> mask S ba bb = S.
-Proof.
-  intros H. apply nnth_ext. intros i. rewrite nnth_mask. destruct (nnth S i) as [b|] eqn:Eb; [|reflexivity].
-  cbn [option_map]. unfold mask_byte. destruct (ba <=? i) eqn:E1; [|reflexivity]. destruct (i <? bb) eqn:E2; [|reflexivity].
-  cbn [andb]. destruct (b =? 10) eqn:E3; [|reflexivity].
-  apply N.leb_le in E1. apply N.ltb_lt in E2. apply N.eqb_eq in E3. subst b. exfalso. exact (H i E1 E2 Eb).
-Qed.
-
-Lemma mask_empty S ba : mask S ba ba = S.
-Proof. apply mask_nolf_id. apply nolf_empty. lia. Qed.
-
-(* the LF bytes at the positions ba <= i < bb (of a list whose first element has position i) *)
-Fixpoint lf_in (l : bytes) (i ba bb : N) : N :=
-  match l with
-  | [] => 0
-  | b :: r => (if (ba <=? i) && (i <? bb) && (b =? 10) then 1 else 0) + lf_in r (i + 1) ba bb
-  end.
-
-Lemma count_lf_maskn l : forall i ba bb, count_lf (maskn l i ba bb) + lf_in l i ba bb = count_lf l.
-Proof.
-  induction l as [|b r IH]; intros i ba bb; cbn [maskn lf_in count_lf]; [reflexivity|].
-  specialize (IH (i + 1) ba bb). destruct ((ba <=? i) && (i <? bb) && (b =? 10)) eqn:E.
-  - apply andb_prop in E. destruct E as [_ E]. rewrite E. change (0 =? 10) with false. cbv iota. lia.
-  - destruct (b =? 10); lia.
-Qed.
-
-Lemma firstn_maskn n : forall l i ba bb, firstn n (maskn l i ba bb) = maskn (firstn n l) i ba bb.
-Proof.
-  induction n as [|n IH]; intros l i ba bb; [reflexivity|]. destruct l as [|b r]; [reflexivity|].
-  cbn [maskn firstn]. rewrite IH. reflexivity.
-Qed.
-
-(* the LF bytes of a prefix of the masked stream: those of the stream, less the masked ones *)
-Lemma count_lf_mask_prefix S ba bb n :
-  count_lf (nfirstn n (mask S ba bb)) + lf_in (nfirstn n S) 0 ba bb = count_lf (nfirstn n S).
-Proof. unfold nfirstn, mask. rewrite firstn_maskn. apply count_lf_maskn. Qed.
-
-(* ================================================================== *)
-(* 1b. list facts for remaining_line_content / remaining_file_content    *)
+(* 1. list facts for remaining_line_content / remaining_file_content     *)
 
 Lemma nlen_cons {A} (x : A) l : nlen (x :: l) = 1 + nlen l.
 Proof. unfold nlen. cbn [length]. lia. Qed.
@@ -247,7 +139,7 @@ Qed.
 
 
 (* ================================================================== *)
-(* 1c. what the limits say (T4)                                          *)
+(* 1b. what the limits say (T4)                                          *)
 
 (* the header: M within the literal type, I + L + A <= M (checked as I <= M, L <= M - I, A <= M - I - L) *)
 Definition HdrOK (maxc : N) (hd : aheader) : Prop :=
@@ -337,7 +229,7 @@ Definition AigL (maxc : N) (hd : aheader) : list item -> Prop :=
 
 
 (* ================================================================== *)
-(* 2. the invariant, against a stream M that agrees with the input from the cursor on *)
+(* 2. the invariant: M is the input                                       *)
 
 Section ASafe.
 Variable fuel : nat.
@@ -348,8 +240,8 @@ Local Notation VOK := (VOK fuel).
 Definition lineS (M : bytes) (ls ln : N) : Prop :=
   (ls = 0 \/ nnth M (ls - 1) = Some 10) /\ ln = 1 + count_lf (nfirstn ls M).
 
-Definition MR (M : bytes) (v : view) : Prop :=
-  nlen M = nlen (vS v) /\ forall i, vcur v <= i -> nnth M i = nnth (vS v) i.
+(* the stream the lines are counted in is the input *)
+Definition MR (M : bytes) (v : view) : Prop := vS v = M.
 
 Definition LIM (M : bytes) (lr : lrs) (v : view) : Prop :=
   l_start lr <= vcur v /\ nolf M (l_start lr) (vcur v) /\ lineS M (l_start lr) (l_line lr).
@@ -393,39 +285,10 @@ Proof.
 Qed.
 
 Lemma MR_self v : MR (vS v) v.
-Proof. split; [reflexivity|]. intros i _. reflexivity. Qed.
+Proof. reflexivity. Qed.
 
 Lemma MR_frame M v v' : MR M v -> frame v v' -> MR M v'.
-Proof.
-  intros [m1 m2] (a1 & _ & a3). split; [rewrite a1; exact m1|]. intros i Hi. rewrite a1. apply m2. lia.
-Qed.
-
-(* a sequence, keeping the run of its first part *)
-Lemma prt_pbnd_w {A B} (m : PM A) (f : A -> PM B) lr v (Qm : A -> lrs -> view -> Prop) (Q : B -> lrs -> view -> Prop) :
-  prt m lr v Qm ->
-  (forall a lr1 v1, aruns (m lr) v (ADone (a, lr1) v1) -> Qm a lr1 v1 -> prt (f a) lr1 v1 Q) ->
-  prt (pbnd m f) lr v Q.
-Proof.
-  intros Hm Hf r Hr. unfold pbnd in Hr.
-  destruct (aruns_bind_inv _ _ _ _ Hr) as [([a lr1] & v1 & Hp & Hfr)|(r0 & Hp & Hab)].
-  - destruct (Hm _ Hp) as (x & v2 & E & HQ). inversion E; subst x v2. cbn [fst snd] in HQ. exact (Hf a lr1 v1 Hp HQ r Hfr).
-  - destruct (Hm _ Hp) as (x & v2 & -> & _). destruct r; cbn in Hab; contradiction.
-Qed.
-
-(* a section ran to its end: the items, the state handed on *)
-Definition SRun {St : Type} (it : St -> PM (result (item * St) perr)) (n : N) (st : St) (lr : lrs) (v : view)
-           (items : list item) (st' : St) (lr' : lrs) (v' : view) : Prop :=
-  aruns (sloop fuel it n st [] lr) v (ADone ((items, st', None), lr') v').
-
-(* the six sections between the latches and the and gates ran to their end *)
-Definition MidRuns {St : Type} (maxc ml : N) (h : aheader) (st : St) (lr : lrs) (v : view)
-           (st' : St) (lr' : lrs) (v' : view) : Prop :=
-  exists l1 s1 lr1 v1, SRun (lit_line fuel maxc ml false IOutput) (a_outputs h) st lr v l1 s1 lr1 v1 /\
-  exists l2 s2 lr2 v2, SRun (lit_line fuel maxc ml false IBad) (a_bad h) s1 lr1 v1 l2 s2 lr2 v2 /\
-  exists l3 s3 lr3 v3, SRun (lit_line fuel maxc ml false IConstraint) (a_constraints h) s2 lr2 v2 l3 s3 lr3 v3 /\
-  exists l4 tot lr4 v4, SRun (justice_size fuel) (a_justice h) 0 lr3 v3 l4 tot lr4 v4 /\
-  exists l5 s5 lr5 v5, SRun (lit_line fuel maxc ml false IJustice) tot s3 lr4 v4 l5 s5 lr5 v5 /\
-  exists l6, SRun (lit_line fuel maxc ml false IFairness) (a_fairness h) s5 lr5 v5 l6 st' lr' v'.
+Proof. intros Hm (a1 & _). unfold MR in *. congruence. Qed.
 
 
 Section WithM.
@@ -477,11 +340,10 @@ Proof. intros H. exact H. Qed.
 Lemma KM_advance lr v n :
   KM lr v -> vcur v + n <= vhwm v -> nolf (vS v) (vcur v) (vcur v + n) -> KM lr (v_advance v n).
 Proof.
-  intros (Hv & (h1 & h2 & h3) & (m1 & m2)) Hn Hnolf.
-  split; [apply VOK_advance; assumption|]. split.
-  - unfold LIM. cbn [v_advance vcur]. split; [lia|]. split; [|exact h3].
-    eapply nolf_trans; [exact h2|]. intros i Hi1 Hi2. rewrite (m2 i Hi1). apply Hnolf; assumption.
-  - split; [exact m1|]. cbn [v_advance vcur vS]. intros i Hi. apply m2. lia.
+  intros (Hv & (h1 & h2 & h3) & Hm) Hn Hnolf. unfold MR in Hm.
+  split; [apply VOK_advance; assumption|]. split; [|exact Hm].
+  unfold LIM. cbn [v_advance vcur]. split; [lia|]. split; [|exact h3].
+  eapply nolf_trans; [exact h2|]. rewrite <- Hm. exact Hnolf.
 Qed.
 
 (* consuming up to and including the LF at p *)
@@ -490,24 +352,25 @@ Lemma KM_nl lr v v1 p n :
   vcur v + n = p + 1 -> vcur v + n <= vhwm v1 ->
   KM {| l_line := l_line lr + 1; l_start := p + 1 |} (v_advance v1 n).
 Proof.
-  intros (Hv & (h1 & h2 & (h3 & h4)) & (m1 & m2)) Hq Hp Hnolf Hlf Hn Hh.
+  intros (Hv & (h1 & h2 & (h3 & h4)) & Hm) Hq Hp Hnolf Hlf Hn Hh. unfold MR in Hm.
   pose proof (VOK_quiet _ _ _ Hv Hq) as Hv1. destruct Hq as (a1 & a2 & a3 & _).
-  assert (HM : nolf M (l_start lr) p).
-  { eapply nolf_trans; [exact h2|]. intros i Hi1 Hi2. rewrite (m2 i Hi1). apply Hnolf; assumption. }
-  assert (HMp : nnth M p = Some 10) by (rewrite (m2 p Hp); exact Hlf).
+  assert (HM : nolf M (l_start lr) p) by (eapply nolf_trans; [exact h2|rewrite <- Hm; exact Hnolf]).
+  assert (HMp : nnth M p = Some 10) by (rewrite <- Hm; exact Hlf).
   split; [apply VOK_advance; [exact Hv1|rewrite a3; exact Hh]|]. split.
   - unfold LIM. cbn [v_advance vcur l_start l_line]. rewrite a3. split; [lia|]. split; [apply nolf_empty; lia|].
     split; [right; replace (p + 1 - 1) with p by lia; exact HMp|].
     rewrite (count_lf_step M p 10 HMp). rewrite (count_lf_nolf M (l_start lr) p HM) by lia. rewrite h4.
     change (10 =? 10) with true. cbv iota. lia.
-  - unfold MR. cbn [v_advance vcur vS]. rewrite a1, a3. split; [exact m1|]. intros i Hi. apply m2. lia.
+  - unfold MR. cbn [v_advance vS]. rewrite a1. exact Hm.
 Qed.
 
 (* ---------- give_up ---------- *)
-Lemma prt_give_up_atM pos lr v :
-  KM lr v -> l_start lr <= pos -> pos <= vcur v -> prt (give_up_at pos) lr v (EPost v).
+(* an error reported at pos, on the line the bookkeeping knows, whatever has been consumed behind pos *)
+Lemma prt_give_up_at_gen pos lr v :
+  VOK v -> MR M v -> l_start lr <= pos -> pos <= vcur v -> nolf M (l_start lr) pos -> lineS M (l_start lr) (l_line lr) ->
+  prt (give_up_at pos) lr v (EPost v).
 Proof.
-  intros (Hv & (h1 & h2 & h3) & (m1 & m2)) Hp1 Hp2. pose proof Hv as (Hw & _ & _ & Ht). unfold prt.
+  intros Hv Hm Hp1 Hp2 h2 h3. unfold MR in Hm. pose proof Hv as (Hw & _ & _ & Ht). unfold prt.
   destruct (s_take v) as [io|] eqn:Est.
   - assert (Hpk : err_parked v io).
     { unfold err_parked, s_take in *. destruct (vknown v); [split; [reflexivity|exact Est]|discriminate]. }
@@ -520,8 +383,15 @@ Proof.
     + cbn [fst snd]. split; [unfold frame; cbn [v_take vS vfail vcur]; split; [reflexivity|split; [reflexivity|lia]]|].
       unfold EP. cbn [v_take vfail vknown vS]. split.
       * unfold s_take, v_err_now in Est. rewrite Ht in Est. destruct (vknown v); [left; exact Est|right; reflexivity].
-      * exists (l_start lr), pos. split; [exact Hp1|]. split; [pose proof (VOK_cur_le _ v Hv); lia|].
-        split; [eapply nolf_weaken; [exact h2|lia|exact Hp2]|]. split; [exact h3|reflexivity].
+      * exists (l_start lr), pos. split; [exact Hp1|]. split; [pose proof (VOK_cur_le _ v Hv); rewrite <- Hm; lia|].
+        split; [exact h2|]. split; [exact h3|reflexivity].
+Qed.
+
+Lemma prt_give_up_atM pos lr v :
+  KM lr v -> l_start lr <= pos -> pos <= vcur v -> prt (give_up_at pos) lr v (EPost v).
+Proof.
+  intros (Hv & (h1 & h2 & h3) & Hm) Hp1 Hp2.
+  apply prt_give_up_at_gen; [exact Hv|exact Hm|exact Hp1|exact Hp2|eapply nolf_weaken; [exact h2|lia|exact Hp2]|exact h3].
 Qed.
 
 Lemma prt_give_upM lr v : KM lr v -> prt give_up lr v (EPost v).
@@ -532,12 +402,20 @@ Qed.
 
 Definition MarkOK (lr : lrs) (v : view) : Prop := l_start lr <= vmark v /\ vmark v <= vcur v.
 
+Lemma prt_give_up_at_mark_gen lr v :
+  VOK v -> MR M v -> l_start lr <= vmark v -> vmark v <= vcur v -> nolf M (l_start lr) (vmark v) ->
+  lineS M (l_start lr) (l_line lr) -> prt give_up_at_mark lr v (EPost v).
+Proof.
+  intros Hv Hm Hm1 Hm2 Hn Hl. unfold give_up_at_mark. apply prt_pbnd, prt_getmark.
+  assert (vmark v mod W64 = vmark v) as ->.
+  { pose proof (VOK_cur_le _ v Hv). pose proof (VOK_small _ v Hv). apply N.mod_small. unfold W64. lia. }
+  apply prt_give_up_at_gen; assumption.
+Qed.
+
 Lemma prt_give_up_at_markM lr v : KM lr v -> MarkOK lr v -> prt give_up_at_mark lr v (EPost v).
 Proof.
-  intros HK [Hm1 Hm2]. unfold give_up_at_mark. apply prt_pbnd, prt_getmark.
-  assert (vmark v mod W64 = vmark v) as ->.
-  { pose proof (VOK_cur_le _ v (KM_VOK _ _ HK)). pose proof (VOK_small _ v (KM_VOK _ _ HK)). apply N.mod_small. unfold W64. lia. }
-  apply prt_give_up_atM; assumption.
+  intros (Hv & (h1 & h2 & h3) & Hm) [Hm1 Hm2].
+  apply prt_give_up_at_mark_gen; [exact Hv|exact Hm|exact Hm1|exact Hm2|eapply nolf_weaken; [exact h2|lia|exact Hm2]|exact h3].
 Qed.
 
 Lemma MarkOK_setmark lr v : KM lr v -> MarkOK lr (v_setmark v).
@@ -921,25 +799,22 @@ Proof.
 Qed.
 
 (* ---------- consuming several lines at once ---------- *)
-Lemma MR_nskipn v : MR M v -> nskipn (vcur v) M = nskipn (vcur v) (vS v).
-Proof. intros [_ m2]. apply nnth_ext. intros i. rewrite !nnth_nskipn. apply m2. lia. Qed.
-
 Lemma KM_lines lr v v1 p n :
   KM lr v -> quiet v v1 -> vcur v <= p -> nnth (vS v) p = Some 10 ->
   vcur v + n = p + 1 -> vcur v + n <= vhwm v1 ->
   KM {| l_line := l_line lr + count_lf (nfirstn (p - vcur v) (nskipn (vcur v) (vS v))) + 1; l_start := p + 1 |}
      (v_advance v1 n).
 Proof.
-  intros (Hv & (h1 & h2 & (h3 & h4)) & Hm) Hq Hp Hlf Hn Hh. pose proof Hm as (m1 & m2).
+  intros (Hv & (h1 & h2 & (h3 & h4)) & Hm) Hq Hp Hlf Hn Hh. unfold MR in Hm.
   pose proof (VOK_quiet _ _ _ Hv Hq) as Hv1. destruct Hq as (a1 & a2 & a3 & _).
-  assert (HMp : nnth M p = Some 10) by (rewrite (m2 p Hp); exact Hlf).
+  assert (HMp : nnth M p = Some 10) by (rewrite <- Hm; exact Hlf).
   split; [apply VOK_advance; [exact Hv1|rewrite a3; exact Hh]|]. split.
   - unfold LIM. cbn [v_advance vcur l_start l_line]. rewrite a3. split; [lia|]. split; [apply nolf_empty; lia|].
     split; [right; replace (p + 1 - 1) with p by lia; exact HMp|].
     rewrite (count_lf_step M p 10 HMp). rewrite <- (nfirstn_split M (vcur v) p Hp), count_lf_app.
-    rewrite (count_lf_nolf M (l_start lr) (vcur v) h2 h1). rewrite (MR_nskipn v Hm). rewrite h4.
+    rewrite (count_lf_nolf M (l_start lr) (vcur v) h2 h1). rewrite Hm. rewrite h4.
     change (10 =? 10) with true. cbv iota. lia.
-  - unfold MR. cbn [v_advance vcur vS]. rewrite a1, a3. split; [exact m1|]. intros i Hi. apply m2. lia.
+  - unfold MR. cbn [v_advance vS]. rewrite a1. exact Hm.
 Qed.
 
 Lemma KM_take_none lr v : KM lr v -> KM lr (v_take v None).
@@ -1133,48 +1008,69 @@ Proof.
 Qed.
 
 (* ---------- token::binary_uint ---------- *)
+(* a byte with the continuation bit is not an LF: only the last byte of a group encoding can be one *)
+Lemma cont_not_lf b : (N.land b 128 =? 0) = false -> b <> 10.
+Proof. intros H ->. discriminate H. Qed.
+
+(* the first loop: the bytes looked at, last one first; those before the last are not LF *)
+Definition ScanPost (lr : lrs) (v0 : view) (acc' : bytes) (lr' : lrs) (v' : view) : Prop :=
+  lr' = lr /\ quiet v0 v' /\ vcur v0 + nlen acc' <= vhwm v' /\
+  exists b r, acc' = b :: r /\ nolf (vS v0) (vcur v0) (vcur v0 + nlen r) /\ nnth (vS v0) (vcur v0 + nlen r) = Some b.
+
 Lemma varint_scan_ok n : forall byte_len acc lr v v0,
   KM lr v -> quiet v0 v -> N.of_nat n + byte_len = 8 -> byte_len < 8 -> nlen acc = byte_len ->
-  vcur v + byte_len <= vhwm v ->
-  prt (varint_scan n byte_len acc) lr v
-      (RP (fun acc' lr' v' => lr' = lr /\ quiet v0 v' /\ 1 <= nlen acc' /\ vcur v0 + nlen acc' <= vhwm v') v0).
+  vcur v + byte_len <= vhwm v -> nolf (vS v) (vcur v) (vcur v + byte_len) ->
+  prt (varint_scan n byte_len acc) lr v (RP (ScanPost lr v0) v0).
 Proof.
-  induction n as [|n IH]; intros byte_len acc lr v v0 HK Hq0 Hn Hlt Hacc Hh; [lia|]. cbn [varint_scan].
+  induction n as [|n IH]; intros byte_len acc lr v v0 HK Hq0 Hn Hlt Hacc Hh Hnolf; [lia|]. cbn [varint_scan].
   apply prt_pbnd, prt_ppeek.
   pose proof (peek_quiet v byte_len (KM_wf _ _ HK)) as Hq1.
   pose proof (quiet_trans _ _ _ Hq0 Hq1) as Hq01.
   pose proof (KM_quiet _ _ _ HK Hq1) as HK1.
   pose proof Hq0 as (a1 & a2 & a3 & _).
   destruct (vpeek v byte_len) as [b|] eqn:Ep.
-  - pose proof (peek_some_hwm v byte_len b Ep) as Hh1.
-    destruct (N.land b 128 =? 0).
+  - pose proof (peek_some_hwm v byte_len b Ep) as Hh1. unfold vpeek in Ep.
+    destruct (N.land b 128 =? 0) eqn:Eb.
     + apply prt_pret. split; [apply quiet_frame; exact Hq01|]. split; [reflexivity|]. split; [exact Hq01|].
-      rewrite nlen_cons. split; [lia|]. rewrite <- a3. lia.
+      rewrite nlen_cons. split; [rewrite <- a3; lia|]. exists b, acc. split; [reflexivity|].
+      rewrite Hacc, <- a1, <- a3. split; assumption.
     + destruct (byte_len + 1 =? 8) eqn:E8.
       * apply prt_fail_with; [apply quiet_frame; exact Hq01|]. apply prt_give_upM. exact HK1.
-      * apply N.eqb_neq in E8. apply (IH (byte_len + 1) (b :: acc) lr (after_peek v byte_len) v0 HK1 Hq01); [lia|lia| |].
+      * apply N.eqb_neq in E8. apply (IH (byte_len + 1) (b :: acc) lr (after_peek v byte_len) v0 HK1 Hq01); [lia|lia| | |].
         -- rewrite nlen_cons. lia.
         -- change (vcur (after_peek v byte_len)) with (vcur v). lia.
+        -- cbn [after_peek vS vcur]. replace (vcur v + (byte_len + 1)) with (vcur v + byte_len + 1) by lia.
+           eapply nolf_trans; [exact Hnolf|]. eapply nolf_one; [exact Ep|apply cont_not_lf; exact Eb].
   - apply prt_fail_with; [apply quiet_frame; exact Hq01|]. apply unexpected_okM. exact HK1.
 Qed.
 
-(* on success the bytes of the group encoding are consumed, whatever they are: the caller re-establishes the
-   line invariant *)
-Lemma binary_uint_ok lr v : KM lr v ->
-  prt binary_uint lr v
-      (RP (fun _ lr' v' => lr' = lr /\ VOK v' /\ vcur v < vcur v' /\ vmark v' = vmark v) v).
+(* on success the bytes of the group encoding are consumed; the flag says whether the last of them is an LF: if so,
+   the invariant holds again once the line break is recorded at the cursor (delta_code does that after its range
+   check); the mark is where it was *)
+Definition UintPost (lr : lrs) (v : view) (r : N * bool) (lr' : lrs) (v' : view) : Prop :=
+  lr' = lr /\ vmark v' = vmark v /\ vcur v < vcur v' /\
+  KM (if snd r then {| l_line := l_line lr + 1; l_start := vcur v' |} else lr) v'.
+
+Lemma binary_uint_ok lr v : KM lr v -> prt binary_uint lr v (RP (UintPost lr v) v).
 Proof.
   intros HK. unfold binary_uint.
   eapply prt_rbnd; [apply frame_refl| |].
-  - apply (varint_scan_ok 8 0 [] lr v v HK (quiet_refl v (KM_wf _ _ HK))); [reflexivity|lia|reflexivity|].
+  - apply (varint_scan_ok 8 0 [] lr v v HK (quiet_refl v (KM_wf _ _ HK))); [reflexivity|lia|reflexivity| |apply nolf_empty; lia].
     destruct HK as ((_ & _ & Hc & _) & _). lia.
-  - intros acc lr1 v1 _ Hf1 (-> & Hq1 & Hlen & Hh). pose proof (KM_quiet _ _ _ HK Hq1) as HK1.
-    pose proof Hq1 as (a1 & a2 & a3 & a4 & _).
-    destruct (varint_value acc 0) as [val|].
-    + apply prt_pbnd, prt_padvance; [rewrite a3; exact Hh|]. apply prt_pret.
+  - intros acc lr1 v1 _ Hf1 (-> & Hq1 & Hh & b & r & -> & Hnolf & Hb). pose proof (KM_quiet _ _ _ HK Hq1) as HK1.
+    pose proof Hq1 as (a1 & a2 & a3 & a4 & _). rewrite nlen_cons in Hh.
+    destruct (varint_value (b :: r) 0) as [val|].
+    + cbv zeta. cbn [hd_error is_byte]. rewrite nlen_cons.
+      apply prt_pbnd, prt_padvance; [rewrite a3; exact Hh|]. apply prt_pret.
       split; [unfold frame; cbn [v_advance vS vfail vcur]; split; [exact a1|split; [exact a2|lia]]|].
-      split; [reflexivity|]. split; [apply VOK_advance; [exact (KM_VOK _ _ HK1)|rewrite a3; exact Hh]|].
-      cbn [v_advance vcur vmark]. split; [lia|exact a4].
+      split; [reflexivity|]. split; [exact a4|]. split; [cbn [v_advance vcur]; lia|]. cbn [snd].
+      destruct (b =? 10) eqn:Eb.
+      * apply N.eqb_eq in Eb. subst b.
+        replace (vcur (v_advance v1 (1 + nlen r))) with (vcur v + nlen r + 1) by (cbn [v_advance vcur]; lia).
+        apply (KM_nl lr v v1 (vcur v + nlen r) (1 + nlen r) HK Hq1); [lia|exact Hnolf|exact Hb|lia|exact Hh].
+      * apply N.eqb_neq in Eb. apply KM_advance; [exact HK1|rewrite a3; exact Hh|]. rewrite a1, a3.
+        replace (vcur v + (1 + nlen r)) with (vcur v + nlen r + 1) by lia.
+        eapply nolf_trans; [exact Hnolf|]. eapply nolf_one; [exact Hb|exact Eb].
     + apply prt_fail_with; [exact Hf1|]. apply prt_give_upM. exact HK1.
 Qed.
 
@@ -1328,18 +1224,17 @@ Lemma sect_ok {St : Type} (m : PM (list item * St * option perr)) (k : St -> PM 
       (Pa : list item -> Prop) (Qb : list item -> list item -> Prop) lr v v0 :
   frame v0 v ->
   prt m lr v (LoopPost Inv J Ein total v) ->
-  (forall items st e lr1 v1, aruns (m lr) v (ADone ((items, st, Some e), lr1) v1) -> Ein e v1 -> Eout e v1) ->
+  (forall e w, Ein e w -> Eout e w) ->
   (forall items st, J items st -> nlen items = total -> Pa items) ->
-  (forall items st lr1 v1, aruns (m lr) v (ADone ((items, st, None), lr1) v1) ->
-     frame v0 v1 -> Inv st lr1 v1 -> J items st -> nlen items = total ->
+  (forall items st lr1 v1, frame v0 v1 -> Inv st lr1 v1 -> J items st -> nlen items = total ->
      prt (k st) lr1 v1 (BP (Qb items) Eout v0)) ->
   prt (sect m k) lr v (BP (SeqD Pa Qb) Eout v0).
 Proof.
-  intros Hf0 Hm HE HPa Hk. unfold sect. eapply prt_pbnd_w; [exact Hm|].
-  intros [[items st] oe] lr1 v1 Hrun [Hf1 Hr]. cbn [fst snd] in Hr. pose proof (frame_trans _ _ _ Hf0 Hf1) as Hf01.
+  intros Hf0 Hm HE HPa Hk. unfold sect. apply prt_pbnd. eapply prt_conseq; [exact Hm|].
+  intros [[items st] oe] lr1 v1 [Hf1 Hr]. cbn [fst snd] in Hr. pose proof (frame_trans _ _ _ Hf0 Hf1) as Hf01.
   destruct oe as [e|].
-  - apply prt_pret. split; [exact Hf01|]. cbn [snd]. eapply HE; [exact Hrun|exact Hr].
-  - destruct Hr as (HI & HJ & Hn). apply prt_pbnd. eapply prt_conseq; [apply (Hk items st lr1 v1 Hrun Hf01 HI HJ Hn)|].
+  - apply prt_pret. split; [exact Hf01|]. cbn [snd]. apply HE. exact Hr.
+  - destruct Hr as (HI & HJ & Hn). apply prt_pbnd. eapply prt_conseq; [apply (Hk items st lr1 v1 Hf01 HI HJ Hn)|].
     intros [items2 fin] lr2 v2 [Hf2 Hfin]. cbn [fst snd] in Hfin. apply prt_pret. split; [exact Hf2|]. cbn [fst snd].
     destruct fin as [|e]; [|exact Hfin]. destruct Hfin as [Hnone HQ]. split; [exact Hnone|].
     exists items, items2. split; [reflexivity|]. split; [eapply HPa; eassumption|exact HQ].
@@ -1352,11 +1247,9 @@ Lemma sect_sloop {St : Type} (it : St -> PM (result (item * St) perr)) (k : St -
   (forall st lr v, Inv st lr v -> VOK v) ->
   (forall st l lr v, Inv st lr v -> J l st -> nlen l < total -> prt (it st) lr v (ItPost Inv J Ein l v)) ->
   Inv st lr v -> J [] st ->
-  (forall items st' e lr1 v1, aruns (sloop fuel it total st [] lr) v (ADone ((items, st', Some e), lr1) v1) ->
-     Ein e v1 -> Eout e v1) ->
+  (forall e w, Ein e w -> Eout e w) ->
   (forall items st, J items st -> nlen items = total -> Pa items) ->
-  (forall items st' lr1 v1, SRun it total st lr v items st' lr1 v1 ->
-     frame v0 v1 -> Inv st' lr1 v1 -> J items st' -> nlen items = total ->
+  (forall items st' lr1 v1, frame v0 v1 -> Inv st' lr1 v1 -> J items st' -> nlen items = total ->
      prt (k st') lr1 v1 (BP (Qb items) Eout v0)) ->
   prt (sect (sloop fuel it total st []) k) lr v (BP (SeqD Pa Qb) Eout v0).
 Proof.
@@ -1474,6 +1367,42 @@ Proof.
   rsi ltac:(apply latch_init_ok). intros init lr2 v2 Hf2 Hlt2 HK2 _.
   unfold code_plus_2. apply prt_pret. split; [exact Hf2|]. split; [exact HK2|]. split; [exact Hlt2|].
   apply CodeJ_step; [exact HJ|]. apply Forall_snoc; [exact (proj1 HJ)|]. exists nx, init. split; [reflexivity|exact Hnx].
+Qed.
+
+(* ---------- token::delta_code, binary next_and_gate ---------- *)
+(* an LF that ends the code is recorded as a line break after the range check; the range error is reported at the
+   mark, where the code starts, on the line the bookkeeping still knows *)
+Lemma delta_code_ok code lr v : KM lr v -> prt (delta_code code) lr v (RP (GsP v (fun x => x <= code)) v).
+Proof.
+  intros HK. unfold delta_code. apply prt_pbnd, prt_pset_mark.
+  pose proof (KM_setmark lr v HK) as HK0. pose proof (frame_setmark v) as Hf0.
+  unfold rbnd. apply prt_pbnd. eapply prt_conseq; [apply (binary_uint_ok lr (v_setmark v)); exact HK0|].
+  intros r lr1 v1 [Hf1 Hr]. pose proof (frame_trans _ _ _ Hf0 Hf1) as Hf01.
+  destruct r as [[delta ends]|e]; [|apply prt_pret; split; assumption].
+  destruct Hr as (-> & Hmk & Hlt & Hends). cbn [v_setmark vcur vmark snd] in Hlt, Hmk, Hends.
+  assert (Hv1 : VOK v1 /\ MR M v1) by (destruct Hends as (h1 & _ & h3); split; assumption).
+  destruct (code <? delta) eqn:Ec.
+  - apply prt_fail_with; [exact Hf01|]. destruct HK as (_ & (h1 & h2 & h3) & _).
+    apply prt_give_up_at_mark_gen; [exact (proj1 Hv1)|exact (proj2 Hv1)|rewrite Hmk; exact h1|rewrite Hmk; lia|
+                                    rewrite Hmk; exact h2|exact h3].
+  - apply N.ltb_ge in Ec. apply prt_pbnd. destruct ends.
+    + apply (prt_line_at_offset fuel); [exact (proj1 Hv1)|]. rewrite N.add_0_r. apply prt_pret.
+      split; [exact Hf01|]. split; [exact Hends|]. split; [exact Hlt|lia].
+    + apply prt_pret. apply prt_pret. split; [exact Hf01|]. split; [exact Hends|]. split; [exact Hlt|lia].
+Qed.
+
+(* binary and gates: the state is the code of the gate being defined *)
+Lemma aig_and_it maxc lhs0 code l lr v :
+  KM lr v -> CodeJ lhs0 (andsB maxc lhs0) l code ->
+  prt (aig_and maxc code) lr v (ItPost KI (CodeJ lhs0 (andsB maxc lhs0)) EP l v).
+Proof.
+  intros HK HJ. pose proof (frame_refl v) as Hf. unfold aig_and.
+  rsi ltac:(apply delta_code_ok). intros in0 lr1 v1 Hf1 _ HK1 Hle0. clear HK Hf.
+  rsi ltac:(apply delta_code_ok). intros in1 lr2 v2 Hf2 Hlt2 HK2 Hle1.
+  unfold code_plus_2. apply prt_pret. split; [exact Hf2|]. split; [exact HK2|]. split; [exact Hlt2|].
+  apply CodeJ_step; [exact HJ|]. destruct HJ as [Hl Hc]. apply andsB_app. split; [exact Hl|]. cbn [andsB].
+  split; [|exact I]. exists in0, in1. split; [reflexivity|]. split; [|exact Hle1].
+  rewrite Hc in Hle0. pose proof (N.mod_le (lhs0 + 2 * nlen l) W64). unfold W64 in *. lia.
 Qed.
 
 (* ---------- symbols and comment ---------- *)
@@ -1605,8 +1534,7 @@ Qed.
 Lemma lit_section {St : Type} maxc ml asg mk (J0 : St -> Prop) n (st : St) (k : St -> PM (list item * final))
       (E : perr -> view -> Prop) (Qb : list item -> Prop) lr v v0 :
   (forall e w, EP e w -> E e w) -> frame v0 v -> KM lr v -> J0 st ->
-  (forall items st' lr1 v1, SRun (lit_line fuel maxc ml asg mk) n st lr v items st' lr1 v1 ->
-     frame v0 v1 -> KM lr1 v1 -> J0 st' -> prt (k st') lr1 v1 (BP Qb E v0)) ->
+  (forall st' lr1 v1, frame v0 v1 -> KM lr1 v1 -> J0 st' -> prt (k st') lr1 v1 (BP Qb E v0)) ->
   prt (sect (sloop fuel (lit_line fuel maxc ml asg mk) n st []) k) lr v
       (BP (SeqD (Sec n (PLine maxc ml asg mk)) (fun _ => Qb)) E v0).
 Proof.
@@ -1620,23 +1548,22 @@ Proof.
   - split; [constructor|exact H0].
   - intros; assumption.
   - intros items st1 [HJ _] Hn. split; assumption.
-  - intros items st1 lr1 v1 Hrun Hf1 HI [_ H01] _. apply (Hk items); [exact Hrun|exact Hf1|exact HI|exact H01].
+  - intros items st1 lr1 v1 Hf1 HI [_ H01] _. apply Hk; [exact Hf1|exact HI|exact H01].
 Qed.
 
 Lemma middle_sections_ok {St : Type} maxc ml h (J0 : St -> Prop) (st : St) (k : St -> PM (list item * final))
       (E : perr -> view -> Prop) (Kt : list item -> Prop) lr v v0 :
   (forall e w, EP e w -> E e w) -> frame v0 v -> KM lr v -> J0 st ->
-  (forall st' lr1 v1, MidRuns maxc ml h st lr v st' lr1 v1 ->
-     frame v0 v1 -> KM lr1 v1 -> J0 st' -> prt (k st') lr1 v1 (BP Kt E v0)) ->
+  (forall st' lr1 v1, frame v0 v1 -> KM lr1 v1 -> J0 st' -> prt (k st') lr1 v1 (BP Kt E v0)) ->
   prt (middle_sections fuel maxc ml h st k) lr v (BP (MidL maxc ml h Kt) E v0).
 Proof.
   intros HE Hf0 HK H0 Hk. unfold middle_sections, MidL.
   apply (lit_section maxc ml false IOutput J0); [exact HE|exact Hf0|exact HK|exact H0|].
-  intros l1 st1 lr1 v1 R1 Hf1 HK1 H01.
+  intros st1 lr1 v1 Hf1 HK1 H01.
   apply (lit_section maxc ml false IBad J0); [exact HE|exact Hf1|exact HK1|exact H01|].
-  intros l2 st2 lr2 v2 R2 Hf2 HK2 H02.
+  intros st2 lr2 v2 Hf2 HK2 H02.
   apply (lit_section maxc ml false IConstraint J0); [exact HE|exact Hf2|exact HK2|exact H02|].
-  intros l3 st3 lr3 v3 R3 Hf3 HK3 H03.
+  intros st3 lr3 v3 Hf3 HK3 H03.
   eapply (sect_sloop _ _ KI (fun l total => Forall PJs l /\ total = jsum l) E E (a_justice h)).
   - exact Hf3.
   - intros st4 lr4 v4. apply KI_VOK.
@@ -1646,15 +1573,12 @@ Proof.
   - split; [constructor|reflexivity].
   - intros; assumption.
   - intros items total [HJ _] Hn. split; assumption.
-  - intros l4 total lr4 v4 R4 Hf4 HK4 [_ Ht] _.
+  - intros l4 total lr4 v4 Hf4 HK4 [_ Ht] _.
     rewrite <- Ht.
     apply (lit_section maxc ml false IJustice J0); [exact HE|exact Hf4|exact HK4|exact H03|].
-    intros l5 st5 lr5 v5 R5 Hf5 HK5 H05.
+    intros st5 lr5 v5 Hf5 HK5 H05.
     apply (lit_section maxc ml false IFairness J0); [exact HE|exact Hf5|exact HK5|exact H05|].
-    intros l6 st6 lr6 v6 R6 Hf6 HK6 H06. apply Hk; [|exact Hf6|exact HK6|exact H06].
-    exists l1, st1, lr1, v1. split; [exact R1|]. exists l2, st2, lr2, v2. split; [exact R2|].
-    exists l3, st3, lr3, v3. split; [exact R3|]. exists l4, total, lr4, v4. split; [exact R4|].
-    exists l5, st5, lr5, v5. split; [exact R5|]. exists l6. exact R6.
+    intros st6 lr6 v6 Hf6 HK6 H06. apply Hk; [exact Hf6|exact HK6|exact H06].
 Qed.
 
 (* ---------- the whole parse ---------- *)
@@ -1698,7 +1622,7 @@ Proof.
   intros hd _ HK1 Hhd. unfold AagL. cbv zeta. set (ml := a_max_var hd * 2 + 1).
   assert (HE : forall e w, EP e w -> EP e w) by (intros; assumption).
   apply (lit_section maxc ml true IInput (fun _ : unit => True)); [exact HE|exact Hf1|exact HK1|exact I|].
-  intros _ st2 lr2 v2 _ Hf2 HK2 _.
+  intros st2 lr2 v2 Hf2 HK2 _.
   eapply (sect_sloop _ _ KI (fun l (_ : unit) => Forall (PLatchA maxc ml) l) EP EP (a_latches hd)).
   - exact Hf2.
   - intros st3 lr3 v3. apply KI_VOK.
@@ -1707,9 +1631,9 @@ Proof.
   - constructor.
   - intros; assumption.
   - intros items st3 HJ Hn. split; assumption.
-  - intros _ st3 lr3 v3 _ Hf3 HK3 _ _.
+  - intros _ st3 lr3 v3 Hf3 HK3 _ _.
     apply (middle_sections_ok maxc ml hd (fun _ : unit => True)); [exact HE|exact Hf3|exact HK3|exact I|].
-    intros st4 lr4 v4 _ Hf4 HK4 _.
+    intros st4 lr4 v4 Hf4 HK4 _.
     eapply (sect_sloop _ _ KI (fun l (_ : unit) => Forall (PAndA maxc ml) l) EP EP (a_ands hd)).
     + exact Hf4.
     + intros st5 lr5 v5. apply KI_VOK.
@@ -1718,186 +1642,49 @@ Proof.
     + constructor.
     + intros; assumption.
     + intros items st5 HJ Hn. split; assumption.
-    + intros _ st5 lr5 v5 _ Hf5 HK5 _ _. apply tail_ok; assumption.
+    + intros _ st5 lr5 v5 Hf5 HK5 _ _. apply tail_ok; assumption.
 Qed.
 
-End WithM.
-
-(* ================================================================== *)
-(* 3. the binary parser: the and-gate section is consumed without line bookkeeping (K1) *)
-
-Section WithS.
-Variable S : bytes.
-
-(* inside the and-gate section, which starts at ba: the LF bytes from ba up to the cursor do not count *)
-Definition KA (ba : N) (lr : lrs) (v : view) : Prop :=
-  vS v = S /\ KM (mask S ba (vcur v)) lr v /\ ba <= vcur v.
-
-(* an error inside the and-gate section that starts at ba: located correctly in the stream with the LF bytes
-   between ba and some bb, not beyond the cursor, masked *)
-Definition EAin (ba : N) (e : perr) (v' : view) : Prop :=
-  exists bb, ba <= bb /\ bb <= vcur v' /\ bb <= nlen S /\ EP (mask S ba bb) e v'.
-
-Lemma KA_VOK ba lr v : KA ba lr v -> VOK v.
-Proof. intros (_ & H & _). exact (KM_VOK _ _ _ H). Qed.
-
-Lemma KA_start lr v : vS v = S -> KM S lr v -> KA (vcur v) lr v.
-Proof. intros HS HK. split; [exact HS|]. split; [rewrite mask_empty; exact HK|lia]. Qed.
-
-(* moving on in the and-gate section, over whatever bytes *)
-Lemma KA_advance ba lr v v' : KA ba lr v -> VOK v' -> frame v v' -> KA ba lr v'.
+Lemma parse_aig_ok maxc lr v : KM lr v -> prt (parse_aig fuel maxc) lr v (APost maxc (AigL maxc) EP v).
 Proof.
-  intros (HS & (_ & (h1 & h2 & (h3 & h4)) & (m1 & m2)) & Hba) Hv' (a1 & _ & a3).
-  split; [rewrite a1; exact HS|]. split; [|lia]. split; [exact Hv'|]. split.
-  - unfold LIM. split; [lia|]. split.
-    + intros i Hi1 Hi2. destruct (N.lt_ge_cases i (vcur v)) as [Hlt|Hge].
-      * assert (E : nnth (mask S ba (vcur v')) i = nnth (mask S ba (vcur v)) i).
-        { rewrite !nnth_mask. destruct (nnth S i) as [b|]; [|reflexivity]. cbn [option_map]. unfold mask_byte.
-          assert ((i <? vcur v') = true) as -> by (apply N.ltb_lt; lia).
-          assert ((i <? vcur v) = true) as -> by (apply N.ltb_lt; lia). reflexivity. }
-        rewrite E. apply h2; assumption.
-      * apply nnth_mask_in; lia.
-    + split.
-      * destruct h3 as [h3|h3]; [left; exact h3|].
-        destruct (N.eq_dec (l_start lr) 0) as [E0|E0]; [left; exact E0|right].
-        rewrite <- h3. rewrite !nnth_mask. destruct (nnth S (l_start lr - 1)) as [b|]; [|reflexivity].
-        cbn [option_map]. unfold mask_byte.
-        assert ((l_start lr - 1 <? vcur v') = true) as -> by (apply N.ltb_lt; lia).
-        assert ((l_start lr - 1 <? vcur v) = true) as -> by (apply N.ltb_lt; lia). reflexivity.
-      * rewrite h4. f_equal. f_equal. apply nfirstn_mask; lia.
-  - split; [rewrite nlen_mask, a1, HS; reflexivity|]. intros i Hi. rewrite a1, HS. apply nnth_mask_out. right. exact Hi.
-Qed.
-
-Lemma EP_at_EAin ba v e v' :
-  vS v = S -> ba <= vcur v -> VOK v -> frame v v' -> EP (mask S ba (vcur v)) e v' -> EAin ba e v'.
-Proof.
-  intros HS Hba Hv (_ & _ & Hc) H. exists (vcur v). split; [exact Hba|]. split; [exact Hc|]. split; [|exact H].
-  rewrite <- HS. apply (VOK_cur_le _ _ Hv).
-Qed.
-
-(* token::delta_code *)
-Definition DeltaPost (ba code : N) (lr : lrs) (v : view) (r : result N perr) (lr' : lrs) (v' : view) : Prop :=
-  frame v v' /\
-  match r with
-  | Ok x => lr' = lr /\ KA ba lr v' /\ vcur v < vcur v' /\ x <= code
-  | Err e => EAin ba e v'
-  end.
-
-Lemma EAin_frame ba e v v' : EAin ba e v -> vcur v <= vcur v' -> EAin ba e v.
-Proof. intros H _. exact H. Qed.
-
-Lemma delta_code_ok ba code lr v : KA ba lr v -> prt (delta_code code) lr v (DeltaPost ba code lr v).
-Proof.
-  intros HKA. pose proof HKA as (HS & HK & Hba). unfold delta_code. apply prt_pbnd, prt_pset_mark.
-  pose proof (MarkOK_setmark _ lr v HK) as HM0. pose proof (frame_setmark v) as Hf0.
-  unfold rbnd. apply prt_pbnd. eapply prt_conseq; [apply (binary_uint_ok (mask S ba (vcur v)) lr (v_setmark v)); exact HK|].
-  intros r lr1 v1 [Hf1 Hr]. pose proof (frame_trans _ _ _ Hf0 Hf1) as Hf01. destruct r as [delta|e].
-  - destruct Hr as (-> & Hv1 & Hlt & Hmk). cbn [v_setmark vcur vmark] in Hlt, Hmk.
-    pose proof (KA_advance ba lr v v1 HKA Hv1 Hf01) as HKA1. pose proof HKA1 as (HS1 & HK1 & Hba1).
-    destruct (code <? delta) eqn:Ec.
-    + unfold fail_with. apply prt_pbnd. eapply prt_conseq; [apply (prt_give_up_at_markM _ lr v1 HK1)|].
-      * destruct HK as (_ & (h1 & _) & _). unfold MarkOK. rewrite Hmk. lia.
-      * intros e lr2 v2 [Hf2 He]. apply prt_pret. split; [eapply frame_trans; eassumption|].
-        eapply EP_at_EAin; [exact HS1|exact Hba1|exact Hv1|exact Hf2|exact He].
-    + apply prt_pret. split; [exact Hf01|]. split; [reflexivity|]. split; [exact HKA1|]. split; [exact Hlt|lia].
-  - apply prt_pret. split; [exact Hf01|].
-    eapply EP_at_EAin; [exact HS|exact Hba|exact (KM_VOK _ _ _ HK)|exact Hf01|exact Hr].
-Qed.
-
-Lemma aig_and_it maxc ba lhs0 code l lr v :
-  KA ba lr v -> CodeJ lhs0 (andsB maxc lhs0) l code ->
-  prt (aig_and maxc code) lr v (ItPost (fun _ : N => KA ba) (CodeJ lhs0 (andsB maxc lhs0)) (EAin ba) l v).
-Proof.
-  intros HKA HJ. unfold aig_and, rbnd. apply prt_pbnd. eapply prt_conseq; [apply delta_code_ok; exact HKA|].
-  intros r0 lr1 v1 [Hf1 Hr0]. destruct r0 as [in0|e]; [|apply prt_pret; split; assumption].
-  destruct Hr0 as (-> & HKA1 & Hlt1 & Hle0).
-  apply prt_pbnd. eapply prt_conseq; [apply delta_code_ok; exact HKA1|].
-  intros r1 lr2 v2 [Hf2 Hr1]. pose proof (frame_trans _ _ _ Hf1 Hf2) as Hf12.
-  destruct r1 as [in1|e]; [|apply prt_pret; split; assumption].
-  destruct Hr1 as (-> & HKA2 & Hlt2 & Hle1).
-  unfold code_plus_2. apply prt_pret. split; [exact Hf12|]. split; [exact HKA2|]. split; [lia|].
-  apply CodeJ_step; [exact HJ|]. destruct HJ as [Hl Hc]. apply andsB_app. split; [exact Hl|]. cbn [andsB].
-  split; [|exact I]. exists in0, in1. split; [reflexivity|]. split; [|exact Hle1].
-  rewrite Hc in Hle0. pose proof (N.mod_le (lhs0 + 2 * nlen l) W64). unfold W64 in *. lia.
-Qed.
-
-(* the part of the binary parse that precedes the and-gate section ran to its end, from (lr0, v0): the header hd,
-   the latches, the six sections after them; the and-gate section starts with the code [code] in state (lr, v) *)
-Definition AigPrefix (maxc : N) (lr0 : lrs) (v0 : view) (hd : aheader) (code : N) (lr : lrs) (v : view) : Prop :=
-  exists lr1 v1, aruns (parse_aheader fuel magic_binary maxc lr0) v0 (ADone (Ok hd, lr1) v1) /\
-  exists l1 code1 lr2 v2,
-    SRun (aig_latch fuel maxc (a_max_var hd * 2 + 1)) (a_latches hd)
-         ((((a_inputs hd + 1) mod W64) * 2) mod W64) lr1 v1 l1 code1 lr2 v2 /\
-    MidRuns maxc (a_max_var hd * 2 + 1) hd code1 lr2 v2 code lr v.
-
-(* [ba, bb) lies within the bytes consumed by the and-gate section of the parse that starts in (lr0, v0) *)
-Definition AndSection (maxc : N) (lr0 : lrs) (v0 : view) (ba bb : N) : Prop :=
-  exists hd code lr v r lr' v',
-    AigPrefix maxc lr0 v0 hd code lr v /\ ba = vcur v /\
-    aruns (sloop fuel (aig_and maxc) (a_ands hd) code [] lr) v (ADone (r, lr') v') /\ ba <= bb /\ bb <= vcur v'.
-
-(* an error of the binary parser: located correctly in the stream with the LF bytes of a range masked; the range
-   is empty, or lies within the bytes consumed by the and-gate section *)
-Definition EA (maxc : N) (lr0 : lrs) (v0 : view) (e : perr) (v' : view) : Prop :=
-  exists ba bb, ba <= bb /\ bb <= nlen S /\ EP (mask S ba bb) e v' /\ (ba = bb \/ AndSection maxc lr0 v0 ba bb).
-
-Lemma EP_EA maxc lr0 v0 e v' : EP S e v' -> EA maxc lr0 v0 e v'.
-Proof.
-  intros H. exists 0, 0. split; [lia|]. split; [lia|]. split; [rewrite mask_empty; exact H|left; reflexivity].
-Qed.
-
-Lemma parse_aig_ok maxc lr v :
-  vS v = S -> KM S lr v -> prt (parse_aig fuel maxc) lr v (APost maxc (AigL maxc) (EA maxc lr v) v).
-Proof.
-  intros HS HK. unfold parse_aig. eapply prt_pbnd_w.
-  { apply (parse_aheader_ok S magic_binary maxc); [discriminate|cbv; intuition discriminate|exact HK]. }
-  intros h lr1 v1 Rh [Hf1 Hh]. apply (finish_parse_ok S); [exact Hf1|destruct h; [exact Hh|apply EP_EA; exact Hh]|].
-  intros hd -> HK1 Hhd. unfold AigL. cbv zeta. set (ml := a_max_var hd * 2 + 1) in *.
+  intros HK. unfold parse_aig. apply prt_pbnd.
+  eapply prt_conseq; [apply (parse_aheader_ok magic_binary maxc); [discriminate|cbv; intuition discriminate|exact HK]|].
+  intros h lr1 v1 [Hf1 Hh]. apply finish_parse_ok; [exact Hf1|destruct h; exact Hh|].
+  intros hd _ HK1 Hhd. unfold AigL. cbv zeta. set (ml := a_max_var hd * 2 + 1) in *.
   set (c0 := 2 * (a_inputs hd + 1)).
-  set (E := EA maxc lr v).
-  eapply (sect_sloop _ _ (KI S) (CodeJ c0 (Forall (PLatchB maxc ml))) E E (a_latches hd)).
+  assert (HE : forall e w, EP e w -> EP e w) by (intros; assumption).
+  eapply (sect_sloop _ _ KI (CodeJ c0 (Forall (PLatchB maxc ml))) EP EP (a_latches hd)).
   - exact Hf1.
   - intros st2 lr2 v2. apply KI_VOK.
-  - intros code l lr2 v2 HI HJ _. eapply prt_conseq; [apply (aig_latch_it S maxc ml c0); [exact HI|exact HJ]|].
-    intros r lr3 v3 Hr. eapply ItPost_E; [apply EP_EA|exact Hr].
+  - intros code l lr2 v2 HI HJ _. apply (aig_latch_it maxc ml c0); [exact HI|exact HJ].
   - exact HK1.
   - split; [constructor|]. change (nlen (@nil item)) with 0. unfold c0.
     rewrite N.mul_mod_idemp_l by (unfold W64; lia). f_equal. lia.
   - intros; assumption.
   - intros items st2 [HJ _] Hn. split; assumption.
-  - intros lats code lr2 v2 R1 Hf2 HK2 [_ Hc] Hn. rewrite Hn in Hc.
-    apply (middle_sections_ok S maxc ml hd (fun code => code = (c0 + 2 * a_latches hd) mod W64));
-      [apply EP_EA|exact Hf2|exact HK2|exact Hc|].
-    intros code' lr3 v3 R2 Hf3 HK3 Hc3.
-    assert (HS3 : vS v3 = S) by (destruct Hf3 as (a1 & _); rewrite a1; exact HS).
-    assert (Hpre : AigPrefix maxc lr v hd code' lr3 v3).
-    { exists lr1, v1. split; [exact Rh|]. exists lats, code, lr2, v2. split; [exact R1|exact R2]. }
+  - intros lats code lr2 v2 Hf2 HK2 [_ Hc] Hn. rewrite Hn in Hc.
+    apply (middle_sections_ok maxc ml hd (fun code => code = (c0 + 2 * a_latches hd) mod W64));
+      [exact HE|exact Hf2|exact HK2|exact Hc|].
+    intros code' lr3 v3 Hf3 HK3 Hc3.
     set (lhs0 := 2 * (a_inputs hd + a_latches hd + 1)).
-    eapply (sect_sloop _ _ (fun _ : N => KA (vcur v3)) (CodeJ lhs0 (andsB maxc lhs0)) (EAin (vcur v3)) E (a_ands hd)).
+    eapply (sect_sloop _ _ KI (CodeJ lhs0 (andsB maxc lhs0)) EP EP (a_ands hd)).
     + exact Hf3.
-    + intros st4 lr4 v4. apply KA_VOK.
+    + intros st4 lr4 v4. apply KI_VOK.
     + intros code4 l lr4 v4 HI HJ _. apply aig_and_it; assumption.
-    + apply KA_start; assumption.
+    + exact HK3.
     + split; [exact I|]. change (nlen (@nil item)) with 0. rewrite Hc3. f_equal. unfold c0, lhs0. lia.
-    + intros items st4 e lr4 v4 R3 (bb & h1 & h2 & h3 & h4). exists (vcur v3), bb.
-      split; [exact h1|]. split; [exact h3|]. split; [exact h4|]. right.
-      exists hd, code', lr3, v3, (items, st4, Some e), lr4, v4.
-      split; [exact Hpre|]. split; [reflexivity|]. split; [exact R3|]. split; assumption.
+    + intros; assumption.
     + intros items st4 [HJ _] Hn4. split; assumption.
-    + intros ands st4 lr4 v4 R3 Hf4 (HS4 & HK4 & Hba4) _ _.
-      apply (tail_ok (mask S (vcur v3) (vcur v4))); [|exact Hf4|exact HK4].
-      intros e w He. exists (vcur v3), (vcur v4). split; [exact Hba4|].
-      split; [rewrite <- HS4; apply (VOK_cur_le _ _ (KM_VOK _ _ _ HK4))|]. split; [exact He|]. right.
-      exists hd, code', lr3, v3, (ands, st4, None), lr4, v4.
-      split; [exact Hpre|]. split; [reflexivity|]. split; [exact R3|]. split; [exact Hba4|lia].
+    + intros _ st4 lr4 v4 Hf4 HK4 _ _. apply tail_ok; assumption.
 Qed.
 
-End WithS.
+End WithM.
+
 
 End ASafe.
 
 (* ================================================================== *)
-(* 4. the theorems                                                       *)
+(* 3. the theorems                                                       *)
 
 Lemma KM_init fuel S fail :
   Forall (fun b => b < 256) S -> nlen S < 2 ^ 62 -> (length S < fuel)%nat -> KM fuel S lrs_init (view_init S fail).
@@ -2004,12 +1791,11 @@ Lemma parse_aig_all fuel maxc S fail r :
     r = ADone (ohd, items, fin, lr') v' /\ vS v' = S /\ vfail v' = fail /\
     match fin with
     | FOk => fail = None /\ exists hd, ohd = Some hd /\ HdrOK maxc hd /\ AigL maxc hd items
-    | FErr e => EA fuel S maxc lrs_init (view_init S fail) e v'
+    | FErr e => EP S e v'
     end.
 Proof.
   intros Hb Hl Hf Hr. pose proof (KM_init fuel S fail Hb Hl Hf) as HK.
-  destruct (prt_elim _ _ _ _ _ (parse_aig_ok fuel S maxc lrs_init (view_init S fail) eq_refl HK) Hr)
-    as ([[ohd items] fin] & lr' & v' & -> & Hfr & Hfin).
+  destruct (prt_elim _ _ _ _ _ (parse_aig_ok fuel S maxc _ _ HK) Hr) as ([[ohd items] fin] & lr' & v' & -> & Hfr & Hfin).
   cbn [fst snd] in Hfin. destruct Hfr as (Hs & Hfl & _). cbn [view_init vS vfail] in Hs, Hfl.
   exists ohd, items, fin, lr', v'. split; [reflexivity|]. split; [exact Hs|]. split; [exact Hfl|].
   destruct fin; [rewrite <- Hfl; exact Hfin|exact Hfin].
@@ -2040,67 +1826,37 @@ Proof.
   destruct (parse_aig_all fuel maxc S fail r Hb Hl Hf Hr) as (ohd & items & fin & lr' & v' & -> & Hs & Hfl & Hfin).
   exists ohd, items, fin, lr', v'. split; [reflexivity|].
   destruct fin as [|[l c|e]]; [exact (proj1 Hfin)| |].
-  - destruct Hfin as (ba & bb & _ & _ & Hfin & _). cbn [EP] in Hfin. rewrite Hfl in Hfin. exact (proj1 Hfin).
-  - destruct Hfin as (ba & bb & _ & _ & Hfin & _). cbn [EP] in Hfin. rewrite Hfl in Hfin. exact Hfin.
+  - cbn [EP] in Hfin. rewrite Hfl in Hfin. exact (proj1 Hfin).
+  - cbn [EP] in Hfin. rewrite Hfl in Hfin. exact Hfin.
 Qed.
 Print Assumptions parse_aig_failing.
 
-(* T3 for the binary parser (known finding K1): the LF bytes of the binary and-gate section are not counted as line
-   breaks.  The location is right in the stream in which the LF bytes of a range [ba, bb) are masked, where the range
-   is empty (the error precedes the and-gate section) or is the part of the and-gate section consumed so far:
-   the line counted is 1 + the LF bytes before the line start that lie outside [ba, bb). *)
-Theorem parse_aig_error_location_masked fuel maxc S fail ohd items l c lr' v' :
-  Forall (fun b => b < 256) S -> nlen S < 2 ^ 62 -> (length S < fuel)%nat ->
-  aruns (parse_aig fuel maxc lrs_init) (view_init S fail) (ADone (ohd, items, FErr (ESyntax l c), lr') v') ->
-  exists ba bb, ba <= bb /\ bb <= nlen S /\ loc_ok (mask S ba bb) l c /\
-                (ba = bb \/ AndSection fuel maxc lrs_init (view_init S fail) ba bb).
-Proof.
-  intros Hb Hl Hf Hr.
-  destruct (parse_aig_all fuel maxc S fail _ Hb Hl Hf Hr) as (ohd0 & items0 & fin & lr0 & v0 & E & Hs & Hfl & Hfin).
-  inversion E; subst. destruct Hfin as (ba & bb & h1 & h2 & Hfin & h4). cbn [EP] in Hfin.
-  exists ba, bb. split; [exact h1|]. split; [exact h2|]. split; [apply loc_strict_ok; exact (proj2 Hfin)|exact h4].
-Qed.
-Print Assumptions parse_aig_error_location_masked.
-
-(* the same, spelled out: the error is reported for a position pos on a line starting at ls; the column is right;
-   the line reported is 1 + the LF bytes before ls, less those inside the part [ba, bb) of the and-gate section *)
-Theorem parse_aig_error_line_count fuel maxc S fail ohd items l c lr' v' :
-  Forall (fun b => b < 256) S -> nlen S < 2 ^ 62 -> (length S < fuel)%nat ->
-  aruns (parse_aig fuel maxc lrs_init) (view_init S fail) (ADone (ohd, items, FErr (ESyntax l c), lr') v') ->
-  exists ba bb ls pos,
-    ba <= bb /\ bb <= nlen S /\ (ba = bb \/ AndSection fuel maxc lrs_init (view_init S fail) ba bb) /\
-    ls <= pos /\ pos <= nlen S /\ c = pos - ls + 1 /\
-    l + lf_in (nfirstn ls S) 0 ba bb = 1 + count_lf (nfirstn ls S) /\
-    (forall i, ls <= i -> i < pos -> nnth S i = Some 10 -> ba <= i /\ i < bb).
-Proof.
-  intros Hb Hl Hf Hr.
-  destruct (parse_aig_all fuel maxc S fail _ Hb Hl Hf Hr) as (ohd0 & items0 & fin & lr0 & v0 & E & Hs & Hfl & Hfin).
-  inversion E; subst. destruct Hfin as (ba & bb & h1 & h2 & Hfin & h4). cbn [EP] in Hfin.
-  destruct Hfin as [_ (ls & pos & g1 & g2 & g3 & (_ & g4) & g5)]. rewrite nlen_mask in g2.
-  exists ba, bb, ls, pos. split; [exact h1|]. split; [exact h2|]. split; [exact h4|].
-  split; [exact g1|]. split; [exact g2|]. split; [exact g5|]. split.
-  - rewrite g4. pose proof (count_lf_mask_prefix (vS v0) ba bb ls). unfold bytes, byte in *. lia.
-  - intros i Hi1 Hi2 Hi. destruct (N.lt_ge_cases i ba) as [Ha|Ha]; [|destruct (N.lt_ge_cases i bb) as [Hb2|Hb2]].
-    + exfalso. apply (g3 i Hi1 Hi2). rewrite nnth_mask_out by (left; exact Ha). exact Hi.
-    + split; assumption.
-    + exfalso. apply (g3 i Hi1 Hi2). rewrite nnth_mask_out by (right; exact Hb2). exact Hi.
-Qed.
-Print Assumptions parse_aig_error_line_count.
-
-(* ... hence the location is right whenever the and-gate section of the parse contains no byte 10 *)
+(* T3 for the binary parser: as for the ascii parser.  A byte 10 that ends a delta code of the binary and-gate section
+   is a line break like any other LF of the input (flussab 530b52f; before that fix those bytes were not counted:
+   the former known finding K1, now defect D15). *)
 Theorem parse_aig_error_location fuel maxc S fail ohd items l c lr' v' :
   Forall (fun b => b < 256) S -> nlen S < 2 ^ 62 -> (length S < fuel)%nat ->
-  (forall ba bb, AndSection fuel maxc lrs_init (view_init S fail) ba bb -> nolf S ba bb) ->
   aruns (parse_aig fuel maxc lrs_init) (view_init S fail) (ADone (ohd, items, FErr (ESyntax l c), lr') v') ->
   loc_ok S l c.
 Proof.
-  intros Hb Hl Hf Hno Hr.
-  destruct (parse_aig_error_location_masked fuel maxc S fail ohd items l c lr' v' Hb Hl Hf Hr)
-    as (ba & bb & _ & _ & Hloc & [->|Hand]).
-  - rewrite mask_empty in Hloc. exact Hloc.
-  - rewrite (mask_nolf_id S ba bb (Hno ba bb Hand)) in Hloc. exact Hloc.
+  intros Hb Hl Hf Hr.
+  destruct (parse_aig_all fuel maxc S fail _ Hb Hl Hf Hr) as (ohd0 & items0 & fin & lr0 & v0 & E & Hs & Hfl & Hfin).
+  inversion E; subst. cbn [EP] in Hfin. apply loc_strict_ok. exact (proj2 Hfin).
 Qed.
 Print Assumptions parse_aig_error_location.
+
+(* ... exactly: the reported (line, column) is that of a position of the input, counted from the start of the input
+   with every byte 10 a line break *)
+Theorem parse_aig_error_position fuel maxc S fail ohd items l c lr' v' :
+  Forall (fun b => b < 256) S -> nlen S < 2 ^ 62 -> (length S < fuel)%nat ->
+  aruns (parse_aig fuel maxc lrs_init) (view_init S fail) (ADone (ohd, items, FErr (ESyntax l c), lr') v') ->
+  exists pos, pos <= nlen S /\ (l, c) = line_col_of S pos.
+Proof.
+  intros Hb Hl Hf Hr.
+  destruct (parse_aig_all fuel maxc S fail _ Hb Hl Hf Hr) as (ohd0 & items0 & fin & lr0 & v0 & E & Hs & Hfl & Hfin).
+  inversion E; subst. cbn [EP] in Hfin. apply loc_strict_pos. exact (proj2 Hfin).
+Qed.
+Print Assumptions parse_aig_error_position.
 
 Theorem parse_aig_limits_fc fuel maxc S fail ohd items lr' v' :
   Forall (fun b => b < 256) S -> nlen S < 2 ^ 62 -> (length S < fuel)%nat ->
@@ -2184,37 +1940,34 @@ Theorem parse_aag_triple fuel maxc v0 :
           (APost maxc (AagL maxc) (EP (vS v0)) v0).
 Proof. apply ptriple_prt. intros lr v [-> HK]. apply parse_aag_ok. exact HK. Qed.
 
-Theorem parse_aig_triple fuel maxc lr0 v0 :
-  ptriple (fun lr v => lr = lr0 /\ v = v0 /\ KM fuel (vS v0) lr v) (parse_aig fuel maxc)
-          (APost maxc (AigL maxc) (EA fuel (vS v0) maxc lr0 v0) v0).
-Proof. apply ptriple_prt. intros lr v (-> & -> & HK). apply parse_aig_ok; [reflexivity|exact HK]. Qed.
+Theorem parse_aig_triple fuel maxc v0 :
+  ptriple (fun lr v => v = v0 /\ KM fuel (vS v0) lr v) (parse_aig fuel maxc)
+          (APost maxc (AigL maxc) (EP (vS v0)) v0).
+Proof. apply ptriple_prt. intros lr v [-> HK]. apply parse_aig_ok. exact HK. Qed.
 
-(* K1 as a triple about the and-gate section alone: started at the cursor ba in a state satisfying the ordinary
-   invariant, it ends -- whatever bytes it consumed -- in a state satisfying the invariant for the stream in which
-   the LF bytes between ba and the new cursor are masked: lines counted = LF bytes outside the section *)
-Theorem aig_and_section_triple fuel maxc n code lr0 v0 :
+(* the and-gate section alone: started in a state satisfying the invariant, it ends -- whatever bytes it consumed,
+   the line breaks among them recorded -- in a state satisfying the invariant, or with an error located in the input *)
+Theorem aig_and_section_triple fuel maxc n code v0 :
   code < W64 ->
-  ptriple (fun lr v => lr = lr0 /\ v = v0 /\ KM fuel (vS v0) lr v)
+  ptriple (fun lr v => v = v0 /\ KM fuel (vS v0) lr v)
           (sloop fuel (aig_and maxc) n code [])
           (fun r lr' v' => frame v0 v' /\
              match snd r with
-             | None => KM fuel (mask (vS v0) (vcur v0) (vcur v')) lr' v' /\ nlen (fst (fst r)) = n /\
-                       andsB maxc code (fst (fst r))
-             | Some e => EAin (vS v0) (vcur v0) e v'
+             | None => KM fuel (vS v0) lr' v' /\ nlen (fst (fst r)) = n /\ andsB maxc code (fst (fst r))
+             | Some e => EP (vS v0) e v'
              end).
 Proof.
-  intros Hcode. apply ptriple_prt. intros lr v (-> & -> & HK).
+  intros Hcode. apply ptriple_prt. intros lr v (-> & HK).
   eapply prt_conseq.
-  - apply (sloop_ok fuel (aig_and maxc) (fun _ : N => KA fuel (vS v0) (vcur v0)) (CodeJ code (andsB maxc code))
-                    (EAin (vS v0) (vcur v0)) n).
-    + intros st lr v. apply KA_VOK.
-    + intros st l lr v HI HJ _. apply aig_and_it; assumption.
-    + apply KA_start; [reflexivity|exact HK].
+  - apply (sloop_ok fuel (aig_and maxc) (KI fuel (vS v0)) (CodeJ code (andsB maxc code)) (EP (vS v0)) n).
+    + intros st lr1 v1. apply KI_VOK.
+    + intros st l lr1 v1 HI HJ _. apply aig_and_it; assumption.
+    + exact HK.
     + split; [exact I|]. cbn [rev]. change (nlen (@nil item)) with 0. replace (code + 2 * 0) with code by lia.
       symmetry. apply N.mod_small. exact Hcode.
     + apply meas_initV. exact (KM_VOK _ _ _ _ HK).
     + change (nlen (@nil item)) with 0. lia.
   - intros [[items st] oe] lr' v' [Hf Hr]. cbn [fst snd] in *. split; [exact Hf|]. destruct oe as [e|]; [exact Hr|].
-    destruct Hr as ((HS & HK' & _) & [HJ _] & Hn). split; [exact HK'|]. split; [exact Hn|exact HJ].
+    destruct Hr as (HK' & [HJ _] & Hn). split; [exact HK'|]. split; [exact Hn|exact HJ].
 Qed.
 Print Assumptions aig_and_section_triple.
